@@ -96,8 +96,20 @@ impl Stats {
         self.inconclusive += o.inconclusive;
         self.discards += o.discards;
         for (k, (n, v)) in o.triage {
-            let e = self.triage.entry(k).or_insert((0, v));
-            e.0 += n;
+            match self.triage.get_mut(&k) {
+                None => {
+                    self.triage.insert(k, (n, v));
+                }
+                Some(e) => {
+                    e.0 += n;
+                    let extra = json!({"case": v["case"], "what": v["what"], "details": v["details"]});
+                    if let Some(a) = e.1.get_mut("more").and_then(|m| m.as_array_mut()) {
+                        if a.len() < 10 {
+                            a.push(extra);
+                        }
+                    }
+                }
+            }
         }
         for s in o.samples {
             if self.samples.len() < 4 {
@@ -617,12 +629,18 @@ fn run_shard<P: Prop>(
                     }
                     Ok(())
                 } else if std::env::var("VP_TRIAGE").is_ok() {
+                    let ex = json!({"case": serde_json::to_value(case).unwrap_or(Value::Null), "what": f.what, "details": f.details});
                     let e = cx
                         .stats
                         .triage
                         .entry(f.signature.clone())
-                        .or_insert((0, json!({"case": serde_json::to_value(case).unwrap_or(Value::Null), "what": f.what, "details": f.details})));
+                        .or_insert((0, json!({"case": ex["case"], "what": ex["what"], "details": ex["details"], "more": []})));
                     e.0 += 1;
+                    if e.0 > 1 && e.0 <= 6 {
+                        if let Some(a) = e.1.get_mut("more").and_then(|m| m.as_array_mut()) {
+                            a.push(ex);
+                        }
+                    }
                     Ok(())
                 } else {
                     Err(f)
